@@ -920,6 +920,8 @@ thing "b" {
 func hostile() *World {
 	s := &schema.BodySchema{
 		Blocks: map[string]*schema.BlockSchema{
+			// block schema without body, labels or anything else
+			"plain": {},
 			// block schema without body
 			"nobody": {Labels: []*schema.LabelSchema{{Name: "n", IsDepKey: true}}},
 			// dependent bodies only, with dynamic blocks propagated into body-less nested blocks
@@ -1047,6 +1049,11 @@ byval {
 }
 byval {
   name = "n1"
+}
+byval {
+  name = true ? null : "n2"
+}
+plain {
 }
 resource {
   pw = "x"
